@@ -20,7 +20,20 @@ const PackageSymbol = Symbol("package")
 // cl:require function.
 var CurrentPackageLoadPath = ""
 
-var packages []*Package
+var (
+	packages []*Package
+	// packagesMu protects packages. Packages can be made and looked up
+	// from multiple threads. The slice is never modified in place so a
+	// reader can walk the slice it got from allPackages without the lock.
+	packagesMu sync.RWMutex
+)
+
+func allPackages() (pkgs []*Package) {
+	packagesMu.RLock()
+	pkgs = packages
+	packagesMu.RUnlock()
+	return
+}
 
 // Package represents a LISP package.
 type Package struct {
@@ -61,8 +74,10 @@ func DefPackage(name string, nicknames []string, doc string) *Package {
 		classes:   map[string]Class{},
 		PreSet:    DefaultPreSet,
 	}
+	packagesMu.Lock()
 	packages = append(packages, &pkg)
 	addFeature(pkg.Name)
+	packagesMu.Unlock()
 
 	return &pkg
 }
@@ -77,19 +92,26 @@ func AddPackage(pkg *Package) {
 	if 0 < len(CurrentPackageLoadPath) {
 		pkg.loadPath = CurrentPackageLoadPath
 	}
+	packagesMu.Lock()
 	packages = append(packages, pkg)
 	addFeature(pkg.Name)
+	packagesMu.Unlock()
 }
 
 // RemovePackage deletes a package.
 func RemovePackage(pkg *Package) {
 	if pkg != nil {
+		packagesMu.Lock()
 		for i, p := range packages {
 			if pkg == p {
-				packages = append(packages[:i], packages[i+1:]...)
+				// Build a new slice, readers may be walking the old one.
+				pkgs := make([]*Package, 0, len(packages))
+				pkgs = append(pkgs, packages[:i]...)
+				packages = append(pkgs, packages[i+1:]...)
 				break
 			}
 		}
+		packagesMu.Unlock()
 		for _, u := range append([]*Package{}, pkg.Uses...) { // Unuse edits pkg.Uses
 			pkg.Unuse(u)
 		}
@@ -710,7 +732,7 @@ func (obj *Package) LoadPath() string {
 
 // PackageNames returns a sorted list of package names.
 func PackageNames() (names List) {
-	for _, pkg := range packages {
+	for _, pkg := range allPackages() {
 		names = append(names, String(pkg.Name))
 	}
 	sort.Slice(names,
@@ -724,19 +746,21 @@ func PackageNames() (names List) {
 
 // AllPackages returns a list of all packages.
 func AllPackages() []*Package {
-	pkgs := make([]*Package, len(packages))
-	copy(pkgs, packages)
+	all := allPackages()
+	pkgs := make([]*Package, len(all))
+	copy(pkgs, all)
 	return pkgs
 }
 
 // FindPackage returns the package matching the provided name.
 func FindPackage(name string) *Package {
-	for _, pkg := range packages {
+	all := allPackages()
+	for _, pkg := range all {
 		if strings.EqualFold(name, pkg.Name) {
 			return pkg
 		}
 	}
-	for _, pkg := range packages {
+	for _, pkg := range all {
 		for _, nn := range pkg.Nicknames {
 			if strings.EqualFold(name, nn) {
 				return pkg
